@@ -9,7 +9,7 @@
 (* op = [id, m, t, decls : Seq(Decl), body : [k, s], resps : Seq(Resp),    *)
 (*       hasDefault]                                                       *)
 (* Resp = [status : STRING ("200" | "default"), ctype : STRING,            *)
-(*         hdrs : Seq([canon, req]), body : [k, s]]                        *)
+(*         hdrs : Seq([canon, req, nn, array, type]), body : [k, s]]       *)
 (***************************************************************************)
 EXTENDS Params, Router, Codec
 
@@ -38,11 +38,29 @@ ImplOutcome(op, status) == IF \E i \in DOMAIN op.resps : op.resps[i].status = st
 
 \* ---- C02 (write half): what a handler's response puts on the wire ----
 RespOf(op, status) == CHOOSE r \in SeqToSet(op.resps) : r.status = status
-WriteOK(resp, done) ==
+\* the header values a response value asks for: a scalar header is written once when set, an array header once per
+\* element, an unset optional header not at all; string-typed values are written verbatim
+WireVals(done, canon) == IF \E i \in DOMAIN done.hdrVals : done.hdrVals[i].canon = canon
+                         THEN (CHOOSE e \in SeqToSet(done.hdrVals) : e.canon = canon).vals ELSE << >>
+HeaderWritten(h, v, done) ==
+    IF ~HasField(v.f, "headers") THEN TRUE
+    ELSE LET hs == FieldOf(v.f, "headers") IN
+         IF hs.t # "struct" \/ ~HasField(hs.f, h.nn) THEN TRUE
+         ELSE LET f     == FieldOf(hs.f, h.nn)
+                  unset == f.t = "maybe" /\ ~f.set
+                  inner == IF f.t = "maybe" THEN f.m ELSE f
+                  wire  == WireVals(done, h.canon)
+              IN IF unset THEN wire = << >>
+                 ELSE IF h.array THEN /\ inner.t = "list" /\ Len(wire) = Len(inner.l)
+                                      /\ (h.type = "string" => \A i \in DOMAIN wire : inner.l[i].t = "leaf" /\ wire[i] = inner.l[i].s)
+                 ELSE /\ Len(wire) = 1
+                      /\ (h.type = "string" => inner.t = "leaf" /\ wire[1] = inner.s)
+WriteOK(resp, v, done) ==
     /\ done.writes = 1
     /\ done.ctype = resp.ctype
     /\ \A i \in DOMAIN resp.hdrs : resp.hdrs[i].req => resp.hdrs[i].canon \in SeqToSet(done.hdrNames)
     /\ \A h \in SeqToSet(done.hdrNames) : h = "Content-Type" \/ \E i \in DOMAIN resp.hdrs : resp.hdrs[i].canon = h
+    /\ \A i \in DOMAIN resp.hdrs : HeaderWritten(resp.hdrs[i], v, done)
     /\ CASE resp.body.k = "json" -> done.body.t # "invalid" /\ Valid(resp.body.s, done.body)
          [] resp.body.k = "none" -> done.bodyEmpty
          [] OTHER -> TRUE
